@@ -723,6 +723,7 @@ def program_strategy(
     unhandled: bool = False,
     reply_step: bool = False,
     ask: bool = False,
+    ask_consumer: bool = False,  # the InputRequiredEvent a step returns may ALSO be consumed inside the workflow (audit step / waiter)
     max_events: int = 60,
 ):
     from hypothesis import strategies as st
@@ -815,6 +816,18 @@ def program_strategy(
                 n_wait_extra = 1
             steps.append(rs)
             consumers.setdefault("Reply", []).append(rs["name"])
+        ask_inside = bool(ask and ask_consumer and draw(st.integers(0, 2)) == 0)
+        if ask_inside:
+            rets = [acts for s_ in steps for acts in s_["acts"].values()]
+            if not any(acts[-1] == ["ret", "Ask"] for acts in rets):
+                free_ = [acts for acts in rets if acts[-1] == ["ret", None]]
+                if free_:
+                    draw(st.sampled_from(free_))[-1][1] = "Ask"
+                else:
+                    ask_inside = False
+        if ask_inside and draw(st.integers(0, 2)) > 0:
+            steps.append({"name": next(names), "accepts": ["Ask"], "workers": draw(st.integers(1, 2)), "retry": None,
+                          "acts": {"Ask": [["sleep", draw(durations)], ["ret", None]]}})
         if collect:
             for s in steps:
                 if len(s["accepts"]) == 2 and draw(st.integers(0, 1)) == 0:
@@ -832,7 +845,7 @@ def program_strategy(
                     if draw(st.integers(0, 3)) == 0 and not any(x[0] == "collect" for x in s["acts"][acc]):
                         to = draw(st.sampled_from([None, None, 2, 5, 9]))
                         s["acts"][acc].insert(
-                            0, ["wait", draw(st.sampled_from(["Reply", "Reply", "Reply2"])), {}, "auto", to, draw(st.booleans()), "continue"]
+                            0, ["wait", draw(st.sampled_from(["Reply", "Reply", "Reply2"] + (["Ask", "Ask"] if ask_inside else []))), {}, "auto", to, draw(st.booleans()), "continue"]
                         )
                         n_wait += 1
         # the finishing step
